@@ -289,12 +289,51 @@ def _line_tracer(frame, event, arg):
     return _line_tracer
 
 
+TRACE_PREFIXES = (CLI_DIR,)  # source files whose lines are pre-emption points
+
+
 def _tracer(frame, event, arg):
     if event == "call":
         code = frame.f_code
-        if code.co_filename.startswith(CLI_DIR) and code.co_name != "<module>":
+        if code.co_filename.startswith(TRACE_PREFIXES) and code.co_name != "<module>":
             return _line_tracer
     return None
+
+
+def run_lib_threads_job(cs, calls, sched_seed, preempt_permille):
+    """library use from several threads of one process (C01): every call [kind, path, arg] runs in its own simulated
+    thread; the seeded scheduler pre-empts between source lines of ascmhl/hasher.py, so reads and updates of
+    different files interleave"""
+    global SCHED, TRACE_PREFIXES
+    from ascmhl import hasher
+
+    sched = SCHED = Scheduler(cs, sched_seed, preempt_permille)
+    sched.main.os_thread = threading.current_thread()
+    TRACE_PREFIXES = (os.path.join(core.REPO, "ascmhl", "hasher.py"),)
+    results = [None] * len(calls)
+
+    def work(i, kind, path, arg):
+        try:
+            if kind == "hash_file":
+                results[i] = hasher.hash_file(path, arg)
+            else:
+                results[i] = hasher.multiple_format_hash_file(path, arg)
+        except BaseException as e:  # noqa
+            results[i] = "exception: " + type(e).__name__ + ": " + str(e)[:200]
+
+    threads = [SimThread(target=work, args=(i,) + tuple(c)) for i, c in enumerate(calls)]
+    hang = False
+    try:
+        for t in threads:
+            t.start()
+        for t in threads:
+            t.join()
+    except VirtualHang:
+        hang = True
+    finally:
+        TRACE_PREFIXES = (CLI_DIR,)
+    switches = sum(1 for a, b in zip(sched.trace, sched.trace[1:]) if a[1] != b[1])
+    return {"results": results, "hang": hang, "switches": switches, "line_events": sched.line_events}
 
 
 # --- the simulated update server -------------------------------------------------------------------------------------
